@@ -106,6 +106,9 @@ def inputs(tier):
                                                        dists=(3.0,) if tier == 'quick' else (2.8, 3.0, 6.0))]
     out += [dict(src='corpus', d=d) for d in corpus.clusters(tier)[:: (1 if tier == 'thorough' else 3)]]
     out += [dict(src='corpus', d=corpus.chain_desc('3SGB', 'I'))]
+    # two copies of the same ligand in different chains that carry the same residue number
+    for lig, partner in (('ACT', 'LYS'), ('MAM', 'GLU'), ('PYR', 'ASP'), ('MGU', 'GLU')):
+        out.append(dict(src='twochains', lig=lig, partner=partner))
     if tier == 'thorough':
         out += [dict(src='corpus', d=d) for d in corpus.whole_chains()]
     return out
@@ -130,12 +133,33 @@ def has_twins(s):
     return any(len(v) > 1 for v in seen.values())
 
 
+def build_twochains(case, seed):
+    """ligand (chain A, residue 1) + partner (chain B), and a second copy 9 A away as chains C/D with the SAME numbers."""
+    s1 = gen.pair(case['lig'], case['partner'], 2.9, level='exposed', offset=gen.seed_offset(seed))
+    s2 = s1.copy()
+    for a in s2.atoms:
+        a.chain = {'A': 'C', 'B': 'D'}[a.chain]
+    ext = s1.extent()
+    s2.translate((ext[0][1] - ext[0][0] + 9000, 700, -400))
+    return gen.S(s1.items + s2.items).renumber_serials()
+
+
 def run_case(case, ctx, acc):
-    s = corpus.build(case['d'], ctx.seed)
+    if case.get('src') == 'twochains':
+        s = build_twochains(case, ctx.seed)
+    else:
+        s = corpus.build(case['d'], ctx.seed)
     text0 = gen.to_text(s)
     r0 = pk.record(pk.run(text0))
     trs, has_icode = transforms(s, ctx.tier)
     nt = any(any(g['dets'][t] for t in g['dets']) or g['energy_volume'] for g in r0['confs']['AVR']['groups'])
+    sel0 = None
+    if case.get('d', {}).get('t') == 'window':
+        for g in r0['confs'][r0['conformations'][0]]['groups']:
+            if g['use'] and g['type'] not in ('N+',):
+                a = next(x for x in s.atoms if '%s:%d%s' % (x.chain.strip() or '_', x.resnum, x.icode.strip()) == ':'.join(g['key'].split(':')[:2]))
+                sel0 = (a.chain, a.resnum, a.icode)
+                break
     for name, f, twin in trs:
         t = relabel(s, f)
         text1 = gen.to_text(t)
@@ -144,6 +168,15 @@ def run_case(case, ctx, acc):
         twins = twin or has_twins(s) or has_twins(t)
         acc.case(nontrivial_key=jhash(sub) if nt else None, outcome='%s/%s' % (name.split('/')[0], 'twins' if twins else 'plain'))
         d = cmp.diff_records(r0, r1, tol=1e-9, keymap=keymap_of(f), labels=False)
+        if not d and sel0 is not None and not twins:
+            # the same residue named by its new label in a titrate-only list selects the same group
+            c2, n2, i2 = f(*sel0)
+            ra = pk.record(pk.run(text0, ('-i', '%s:%d%s' % (sel0[0].strip() or '_', sel0[1], sel0[2].strip()))))
+            rb = pk.record(pk.run(text1, ('-i', '%s:%d%s' % (c2.strip() or '_', n2, i2.strip()))))
+            d = cmp.diff_records(ra, rb, tol=1e-9, keymap=keymap_of(f), labels=False)
+            acc.n += 1
+            if d:
+                d = [('titrate-only/' + d[0][0],) + tuple(d[0][1:])]
         if d:
             stage = d[0][0]
             ck = 'relabel-changes-result/%s/first-divergence=%s/%s' % (
